@@ -8,6 +8,7 @@ from common import *
 import seqcheck
 import mccheck
 import meta
+import findings
 
 # ---------------------------------------------------------------------------------------
 # sequential-engine properties (monitor: specs/core/CoreTrace.tla)
@@ -43,6 +44,19 @@ SEQ = {
                      "non-trivial = a specify, a struct creation and a write"),
     "C11": dict(families=["accum"], needs=["op:accum", "accv", "op:set"],
                 rule="accum family; non-trivial = accumulated() requested, values pushed and a write"),
+    "C12": dict(families=["fix"], needs=["wic", "op:set"],
+                rule="fix family: 1-4 mutually recursive functions with cycle_initial = bottom (0) over 3-bit sets, bodies are "
+                     "unions of masked calls, input-controlled (conditionally formed, nested) cycles, default and joining "
+                     "cycle_fn, plain consumers and leaves; every function requested as entry point; non-trivial = the "
+                     "history iterated a cycle and wrote an input"),
+    "C13": dict(families=["fb"], needs=["cres", "op:set"],
+                rule="fb family: same shapes with cycle_result; non-trivial = a fallback was used and an input written"),
+    "C14": dict(families=["pcycle"], needs=["panic:cycle", "op:set"],
+                rule="pcycle family: plain functions whose backward calls are input-controlled; non-trivial = a cycle "
+                     "panic occurred and an input was written"),
+    "C15": dict(families=["diverge"], needs=["panic:iterlimit", "op:set"], scale=0.1,
+                rule="diverge family: f = NOT f under an input switch, plus a convergent cycle and unrelated functions; "
+                     "non-trivial = the iteration limit was hit and an input written"),
     "C23": dict(families=["core", "lru", "struct", "intern", "mixed"], needs=["drop", "retained"],
                 rule="value lifetime discipline over all sequential families; non-trivial = values dropped and "
                      "references retained across a read phase"),
@@ -59,10 +73,13 @@ ASSUME_SEQ = [
 ]
 
 
-def known_match(known, pid, job):
-    dg = job_digest(job)
+def known_match(known, pid, job, job_trace):
+    """A violation is a *known finding* only if the failing history matches a listed signature."""
+    sig = findings.classify(pid, job, job_trace)
+    if sig is None:
+        return None
     for f in known.get("findings", []):
-        if f.get("property") == pid and f.get("job_digest") == dg:
+        if f.get("property") == pid and f.get("signature") == sig:
             return f
     return None
 
@@ -85,7 +102,8 @@ def run_seq(pid, tier, seed, replay):
         mcinfo = run_mc_part(pid, cfg, tier, seed, binary, wd, results)
         fams = cfg["families"]
         with ThreadPoolExecutor(max_workers=min(8, len(fams))) as ex:
-            futs = [ex.submit(seqcheck.run_family, binary, fam, seed * 1000 + i, t["njobs"], t["nops"], wd)
+            futs = [ex.submit(seqcheck.run_family, binary, fam, seed * 1000 + i,
+                              max(10, int(t["njobs"] * cfg.get("scale", 1))), t["nops"], wd)
                     for i, fam in enumerate(fams)]
             results += [f.result() for f in futs]
     return finish(pid, tier, seed, results, cfg, known, wd, t0, mc=mcinfo)
@@ -140,7 +158,7 @@ def finish(pid, tier, seed, results, cfg, known, wd, t0, mc):
             if vid != pid:
                 others.setdefault(vid, []).append((r["family"], jid))
                 continue
-            kf = known_match(known, pid, job) if job else None
+            kf = known_match(known, pid, job, seqcheck.trace_excerpt(r["trace"], r["starts"], jid, maxlines=100000)) if job else None
             if kf:
                 known_hits.append(kf)
             else:
